@@ -209,6 +209,7 @@ type Server struct {
 	hookCross    *rtree.RTree // hook spatial tree for "cross" geofences
 	hookTree     *rtree.RTree // hook spatial tree for all
 	hooksOut     *btree.BTree // hooks with "outside" detection -- [string]*Hook
+	groupMu      sync.Mutex   // guards groupHooks and groupObjects (live fences update them under the shared lock)
 	groupHooks   *btree.BTree // hooks that are connected to objects
 	groupObjects *btree.BTree // objects that are connected to hooks
 	hookExpires  *btree.BTree // queue of all hooks marked for expiration
